@@ -112,6 +112,40 @@ def classify_arm(body):
     return '.unknown'
 
 
+FOR_RX = re.compile(r'\{for\((\w+),call_pattern\)in(fn_mocker\.call_patterns)\.iter\(\)\.enumerate\(\)\{(?:letpat_index=PatIndex\(\1\);)?match(.*?)\{(.*)\}\}(.*)\}$', re.S)
+
+
+def classify_loop_arm(body, idx):
+    b = body.strip().rstrip(',')
+    if b.startswith('{') and b.endswith('}'):
+        b = b[1:-1].rstrip(';')
+    if b == 'continue':
+        return '.none_'
+    if b in ('returnOk(Some((pat_index,call_pattern)))', f'returnOk(Some((PatIndex({idx}),call_pattern)))'):
+        return '.someOk'
+    if b in ('returnErr(self.map_pattern_error(err,fn_mocker,pat_index))', f'returnErr(self.map_pattern_error(err,fn_mocker,PatIndex({idx})))'):
+        return '.someErr'
+    return '.unknown'
+
+
+def any_order_loop(arm_text):
+    """the same selection written as a `for` loop with `continue` / early `return` and a trailing `Ok(None)`"""
+    m = FOR_RX.match(arm_text)
+    if not m:
+        return None
+    idx, recv, scrut, arms, tail = m.groups()
+    on = {'false': '.unknown', 'true': '.unknown', 'err': '.unknown'}
+    for arm in split_top(arms):
+        if '=>' not in arm:
+            continue
+        pat, body = arm.split('=>', 1)
+        key = {'Ok(false)': 'false', 'Ok(true)': 'true', 'Err(err)': 'err'}.get(pat.strip())
+        if key:
+            on[key] = classify_loop_arm(body, idx)
+    adaptors = ['.iter', '.enumerate', '.forReturn' if tail == 'Ok(None)' else '.other']
+    return True, adaptors, scrut == 'match_inputs(call_pattern,None)', on, on['err'] == '.someErr'
+
+
 def any_order(arm_text):
     """arm_text: whitespace-free text of the InAnyOrder arm's expression"""
     recv, calls = method_chain(arm_text)
@@ -149,6 +183,23 @@ OSTMTS = [
 ]
 
 
+def classify_stmt(st):
+    """by the runtime function a statement calls and the error it can raise (layout of the error struct is not looked at)"""
+    for rx, name in OSTMTS:
+        if re.match(rx, st, flags=re.S):
+            return name
+    has = lambda x: x in st
+    if has('bump_ordered_call_index()') and st.startswith('let') and not has('find_call_pattern_for_call_order'):
+        return '.bump'
+    if has('find_call_pattern_for_call_order(ordered_call_index)') and has('CallOrderNotMatchedForMockFn') and not has('match_inputs('):
+        return '.findOrErrCallOrder'
+    if has('MismatchReporter::new_enabled()') and not has('match_inputs('):
+        return '.newReporter'
+    if st.startswith('if!match_inputs(pattern,Some(&mut') and has('InputsNotMatchedInCallOrder') and has('returnErr(') and has('map_pattern_error(err,fn_mocker,pat_index)'):
+        return '.matchOrErrInputs'
+    return '.unknown'
+
+
 def statements(block):
     """top-level statements of a whitespace-free block: split on `;` at depth 0, keeping `if … { … }` whole"""
     out, depth, cur = [], 0, ''
@@ -174,11 +225,7 @@ def in_order(block):
             st2 = st2[:-2]
         elif st2.endswith('}') and st2.startswith('if'):
             st2 = st2[:-1].rstrip(';')
-        for rx, name in OSTMTS:
-            if re.match(rx, st2, flags=re.S):
-                steps.append(name); break
-        else:
-            steps.append('.unknown')
+        steps.append(classify_stmt(st2))
     return steps
 
 
@@ -198,8 +245,15 @@ def main():
             ia = arms.find('PatternMatchMode::InAnyOrder=>'); io = arms.find('PatternMatchMode::InOrder=>')
             if ia >= 0 and io > ia:
                 a_text = arms[ia + len('PatternMatchMode::InAnyOrder=>'):io].rstrip(',')
-                over, adaptors, rep_none, on, own_idx = any_order(a_text)
-                rec_any = True
+                loop = any_order_loop(a_text)
+                if loop:
+                    over, adaptors, rep_none, on, own_idx = loop
+                    rec_any = True
+                elif a_text.startswith('fn_mocker.call_patterns.') and not a_text.startswith('{'):
+                    over, adaptors, rep_none, on, own_idx = any_order(a_text)
+                    rec_any = True
+                else:
+                    notes.append('UNRECOGNISED shape of the InAnyOrder arm (neither an iterator chain on fn_mocker.call_patterns nor a for-loop over it): the skeleton falls back to the model\'s own, C01_source_scan_is_model_scan is vacuous, the tie is the correspondence run alone')
                 o_text = arms[io + len('PatternMatchMode::InOrder=>'):]
                 if o_text.startswith('{'):
                     j = balanced(o_text, 0)
@@ -217,11 +271,17 @@ def main():
     op, delta, seq = 'unknown', 0, False
     if bb is not None:
         fb = re.sub(r'\s+', '', bb)
-        m = re.fullmatch(r'self\.next_ordered_call_index\.([a-z_]+)\((\d+),core::sync::atomic::Ordering::(\w+)\)', fb)
+        m = re.fullmatch(r'self\.next_ordered_call_index\.([a-z_]+)\((\d+),(?:(?:core|std)::sync::atomic::|atomic::)?Ordering::(\w+)\)', fb)
         if m:
             op, delta, seq = m.group(1), int(m.group(2)), m.group(3) == 'SeqCst'
         else:
             notes.append('bump_ordered_call_index body not recognised: ' + fb[:80])
+    if not rec_any:
+        over, adaptors, rep_none, own_idx = True, ['.iter', '.enumerate', '.filterMap', '.next', '.transpose', '.mapErr'], True, True
+        on = {'false': '.none_', 'true': '.someOk', 'err': '.someErr'}
+    if not rec_ord:
+        osteps = ['.bump', '.findOrErrCallOrder', '.newReporter', '.matchOrErrInputs', '.okSome']
+        notes.append('UNRECOGNISED shape of the InOrder arm (not one block): fallback to the model\'s own statement list, C04_source_ordered_* vacuous, tie = correspondence run')
     b = lambda x: 'true' if x else 'false'
     lines = [
         'import Unimock.Model.ScanSkel',
